@@ -103,6 +103,10 @@ void GlobalGraph::link(Graph::NodeId nodeA, Graph::NodeId nodeB, GlobalGraph::Ed
     linkInNodeStructure_(nodeB, nodeA, edgeID);
   }
   linkInEdgeStructure_(nodeA, nodeB, edgeID);
+
+  // the IDs handed out by link(nodeA, nodeB) must stay unused
+  if (edgeID >= highestEdgeID_)
+    highestEdgeID_ = edgeID + 1;
 }
 
 vector<GlobalGraph::Edge> GlobalGraph::unlink(Graph::NodeId nodeA, Graph::NodeId nodeB)
@@ -260,12 +264,16 @@ Graph::NodeId GlobalGraph::createNodeOnEdge(Graph::EdgeId edge)
   // origin must be an existing edge
   edgeMustExist_(edge, "");
 
-  Graph::NodeId newNode = createNode();
-
   // determining the nodes on the border of the edge
   pair<GlobalGraph::Node, GlobalGraph::Node> nodes = edgeStructure_[edge];
   GlobalGraph::Node nodeA = nodes.first;
   GlobalGraph::Node nodeB = nodes.second;
+
+  // splitting an undirected loop would need two edges between the same two nodes
+  if (!directed_ && nodeA == nodeB)
+    throw Exception("GlobalGraph::createNodeOnEdge : cannot split a loop of an undirected graph: edge " + TextTools::toString(edge));
+
+  Graph::NodeId newNode = createNode();
 
   unlink(nodeA, nodeB);
   link(nodeA, newNode);
